@@ -237,6 +237,58 @@ def run(chk):
             if l_ and c_ and "m_filename" in a0 and "t_match_start" in l_[0] and "location.start.line" in l_[0] and "m_position.line" in l_[1] and \
                     "t_match_start" in c_[0] and "location.start.column" in c_[0] and "m_position.col" in c_[1] and "m_position.line" in e3 and "m_position.col" in e4:
                 okb = True
+    if not okb:
+        # any other arrangement of the same values (a start position chosen first, the cursor named once): evaluate the five arguments of the one
+        # construction symbolically, once for "has children" and once for "has none"
+        def sym(e, deep, depth=0):
+            e = strip_casts(e)
+            k = e.get("k")
+            if depth > 8:
+                return "?"
+            if k == "paren" and e.get("e") is not None:
+                return sym(e["e"], deep, depth + 1)
+            if k == "ref" and e.get("rk") == "local":
+                v = gl.get(e.get("vid"))
+                if v is not None and v.get("init") is not None and not any(y.get("k") == "assign" and strip_casts(y["lhs"]).get("vid") == e.get("vid") for y in walk(g["body"])):
+                    return sym(v["init"], deep, depth + 1)
+                return "?"
+            if k == "cond":
+                c = expr_str(prog, g, expand(e["c"])).replace(" ", "")
+                neg = c.startswith("!")
+                if "t_match_start" in c and "size()" in c and ("!=" in c or "==" in c):
+                    when_true_nonempty = ("!=" in c) != neg
+                    return sym(e["a"] if when_true_nonempty == deep else e["b"], deep, depth + 1)
+                return "?"
+            if k == "construct" and len(e.get("args", [])) == 2:
+                return ("pos", sym(e["args"][0], deep, depth + 1), sym(e["args"][1], deep, depth + 1))
+            if k == "construct" and len(e.get("args", [])) == 1:
+                return sym(e["args"][0], deep, depth + 1)
+            if k == "member":
+                nm = e.get("name")
+                if nm == "m_position":
+                    return "cursor"
+                if nm == "m_filename":
+                    return "file"
+                base = e.get("base")
+                if nm == "start" and base is not None:
+                    bt = expr_str(prog, g, base).replace(" ", "")
+                    return "child.start" if "m_match_stack" in bt and "t_match_start" in bt and "+" not in bt and "-1" not in bt and bt.endswith("location") else "?"
+                if nm in ("line", "column", "col") and base is not None:
+                    b = sym(base, deep, depth + 1)
+                    if isinstance(b, tuple):
+                        return b[1] if nm == "line" else b[2]
+                    if b == "cursor":
+                        return "cursor." + ("line" if nm == "line" else "col")
+                    if b == "child.start":
+                        return "child.start." + ("line" if nm == "line" else "col")
+                return "?"
+            return "?"
+        for n in [x for x in walk(g["body"]) if x.get("k") == "construct" and "Parse_Location" in prog.T(g, x.get("t")) and len(x.get("args", [])) >= 5]:
+            d_ = [sym(x, True) for x in n["args"][:5]]
+            f_ = [sym(x, False) for x in n["args"][:5]]
+            if d_ == ["file", "child.start.line", "child.start.col", "cursor.line", "cursor.col"] and f_ == ["file", "cursor.line", "cursor.col", "cursor.line", "cursor.col"]:
+                okb = True
+            detail += " symbolic: with children %s, without %s" % (d_, f_)
     r3.ob("build_match: an inner node starts where its first child starts (current cursor when it has none) and ends at the cursor", okb, g.where, g["q"], "Parse_Location constructions:" + detail[:300])
     # file name of the parse in progress
     pis = [f for f in pf if f["name"] == "parse_internal"]
